@@ -14,10 +14,15 @@ import (
 	"net/http/httptest"
 	"errors"
 	"fmt"
+	"go/ast"
+	"go/parser"
+	"go/token"
 	"io"
 	"math/rand"
 	"os"
+	"path/filepath"
 	"regexp/syntax"
+	"sort"
 	"strconv"
 	"strings"
 	"sync"
@@ -677,6 +682,21 @@ func sites() []site {
 			return inner.run(v)
 		}})
 	}
+	{
+		// round 7 (seeded C10-g): the expression of a `| regexp` stage WITH named groups: the value sits between two constant groups
+		// (their names are rendered as a quoted list beside the expression; the stage prints the expression without the names)
+		s = append(s, site{name: "logql.regexp.groups", run: func(v string) res {
+			if strings.Contains(nonCapturing.Replace(v), "(") {
+				return rejected("capture group changes the label list by design")
+			}
+			lit, want, ok := logqlLit(`(?P<or>\d+)`+v+`(?P<Or>\w+)`, false)
+			if !ok || !strings.HasPrefix(want, `(?P<or>\d+)`) || !strings.HasSuffix(want, `(?P<Or>\w+)`) {
+				return rejected("literal not expressible")
+			}
+			sqls, rej := runLogql(fmt.Sprintf(`{a="b"} | regexp %s`, lit), false, false)
+			return plain(sqls, want[len(`(?P<or>\d+)`):len(want)-len(`(?P<Or>\w+)`)], rej)
+		}})
+	}
 	s = append(s, logqlSite("logql.drop.val", `{a="b"} | json x="y" | drop lbl=%s`, no))
 	s = append(s, logqlSite("logql.drop.ts", `rate({a="b"} | drop lbl=%s [1m])`, no))
 	{
@@ -1165,7 +1185,53 @@ var atoms = []string{
 	// round 6 (seeded C10-f): the placeholders of clickhouse-go's client-side bind (numeric, positional with its escape, named) and of
 	// its native query parameters; they are rewritten INSIDE literals as soon as the call of the session has an argument
 	"x$1y", "$2", "$0", "$10", "$1'", "'$1", "\\?", "a?b", "??", "@name", "@p1'", "{a:String}", "{p1:Identifier}",
+	// round 7 (seeded C10-g): NAMED placeholders of a home-made template (strings.ReplaceAll / Replacer / os.Expand over text that
+	// already holds the rendered request string: the later substitutions also run over the request's own bytes)
+	"{labels}", "{id}", "{col}", "{re}", "{name}", "{val}'", "a{id}b", "$name", "${name}", "$id'", "%(name)s", "<id>", "{0}'", "{1}", "{{id}}", ":id",
 	"' OR 1=1 --", "'; DROP TABLE samples; --", "\\') UNION ALL SELECT 1 --", "') /*", "x", "a", "0", "1=1",
+}
+
+// round 7: the placeholder words the code under test itself uses: every `{word}`, `$word`, `${word}` that occurs in a string constant of
+// a non-test Go file under reader/ of the repository the harness is built against (VERIF_REPO, default /repo).  A template filled by
+// successive replacements is only dangerous for the words IT knows; they cannot be guessed, they can be read.  Each harvested word is
+// tried at every position in every run (class grid:placeholder), bare and between quotes' neighbours (`a'` + word).
+var placeholderWord = regexp.MustCompile(`\{[A-Za-z_][A-Za-z0-9_.]*\}|\$\{[A-Za-z_][A-Za-z0-9_]*\}|\$[A-Za-z_][A-Za-z0-9_]*`)
+
+func harvestPlaceholders() []string {
+	root := os.Getenv("VERIF_REPO")
+	if root == "" {
+		root = "/repo"
+	}
+	seen := map[string]bool{}
+	filepath.Walk(filepath.Join(root, "reader"), func(p string, info os.FileInfo, err error) error {
+		if err != nil || info.IsDir() || !strings.HasSuffix(p, ".go") || strings.HasSuffix(p, "_test.go") {
+			return nil
+		}
+		f, err := parser.ParseFile(token.NewFileSet(), p, nil, 0)
+		if err != nil {
+			return nil
+		}
+		ast.Inspect(f, func(n ast.Node) bool {
+			if bl, ok := n.(*ast.BasicLit); ok && bl.Kind == token.STRING {
+				if s, err := strconv.Unquote(bl.Value); err == nil {
+					for _, w := range placeholderWord.FindAllString(s, -1) {
+						seen[w] = true
+					}
+				}
+			}
+			return true
+		})
+		return nil
+	})
+	var ws []string
+	for w := range seen {
+		ws = append(ws, w)
+	}
+	sort.Strings(ws)
+	if len(ws) > 24 {
+		ws = ws[:24]
+	}
+	return ws
 }
 
 // tried at every position in every run: `%'` (the escaped quote behind a percent sign), a plain verb, the escaped percent sign,
@@ -1553,6 +1619,22 @@ func main() {
 	for _, st := range ss {
 		for _, v := range directiveGrid {
 			rn.one(st, v, "grid:directive")
+		}
+	}
+	// round 7: the placeholder words harvested from the repository's own string constants, at every position
+	words := harvestPlaceholders()
+	out.Put(map[string]any{"kind": "placeholders", "words": words})
+	for _, st := range ss {
+		for _, w := range words {
+			rn.one(st, w, "grid:placeholder")
+		}
+		// fixed words: two generic ones everywhere, the usual names of a statement template at the `| regexp` stage (the seed's position)
+		fixed := []string{"{id}", "$name"}
+		if strings.HasPrefix(st.name, "logql.regexp") {
+			fixed = []string{"{id}", "$name", "{labels}", "{col}", "{re}", "{0}", "${1}", "${name}", "x{labels}'y"}
+		}
+		for _, w := range fixed {
+			rn.one(st, w, "grid:placeholder-fixed")
 		}
 	}
 	for i := 0; i < f.N; i++ {
